@@ -27,7 +27,7 @@ def bump_mesh(spec):
 
 @st.composite
 def cases(draw, tier="quick"):
-    spec = bump_mesh(draw(plotgen.plot_specs(thin=True, ndims=2, max_cells=3000 if tier == "quick" else 12000, max_fields=5,
+    spec = bump_mesh(draw(plotgen.plot_specs(thin=True, level_prefix=True, ndims=2, max_cells=3000 if tier == "quick" else 12000, max_fields=5,
                                              payload_kinds=("special", "coded", "random"))))
     nf = len(spec["fields"])
     mode = draw(st.sampled_from(["names", "names", "names+grid", "grid", "all"]))
@@ -60,7 +60,12 @@ def check_case(case, ctx):
     from amr_kitchen.mandoline import Mandoline
     ctx.fresh()
     plot = plotgen.Plot(case["spec"])
-    plotgen.write(plot, "src")
+    from ..harness import VIAS, place_plotfile
+    import zlib as _z, json as _j
+    via = VIAS[_z.crc32(_j.dumps(case["spec"]["mesh"], sort_keys=True).encode()) % len(VIAS)]
+    src = place_plotfile(lambda pth: plotgen.write(plot, pth), via)
+    if via:
+        ctx.label("path:" + via)
     labs = plot.labels()
     ctx.label(*labs, "mode:" + case["mode"])
     limit = case["limit"]
@@ -74,7 +79,7 @@ def check_case(case, ctx):
             pools.set_schedule(case["sched"] if not serial else None)
             try:
                 with poisoned_empty(pv):
-                    m = qcall(Mandoline, "src", fields=list(req), limit_level=limit, serial=serial, verbose=0)
+                    m = qcall(Mandoline, src, fields=list(req), limit_level=limit, serial=serial, verbose=0)
                     runs[(pv, serial)] = qcall(m.slice, fformat="return")
             except Exception as e:
                 return [f"mandoline raised {type(e).__name__}: {e} (serial={serial})"]
@@ -88,7 +93,7 @@ def check_case(case, ctx):
     for serial in (True, False):
         try:
             with poisoned_empty(POISONS[0]):
-                m = qcall(Mandoline, "src", fields=list(req), limit_level=limit, serial=serial, verbose=0)
+                m = qcall(Mandoline, src, fields=list(req), limit_level=limit, serial=serial, verbose=0)
                 qcall(m.slice, fformat="return")
                 qcall(m.slice, fformat="return")
                 again = qcall(m.slice, fformat="return")
@@ -106,7 +111,7 @@ def check_case(case, ctx):
         import amr_kitchen.mandoline.cli as cli
         from . import common
         ctx.label("cli")
-        argv = ["mandoline", "src", "-f", "array", "-o", "cli_out", "-V", "0", "-v"] + list(req) + (["-L", str(limit)] if limit is not None else [])
+        argv = ["mandoline", src, "-f", "array", "-o", "cli_out", "-V", "0", "-v"] + list(req) + (["-L", str(limit)] if limit is not None else [])
         try:
             common.run_main(cli.main, argv)
             with np.load("cli_out.npz") as z:
